@@ -28,7 +28,9 @@ PID = "C14"
 RULE = ("cases: method x unicode path (segments without '?', '#', control characters) x query dict (arbitrary unicode keys "
         "and values incl. reserved characters, empties, ints) x <= 90 headers (token names, latin-1 values) x body as raw "
         "bytes / JSON data / form fields (urlencoded or multipart), with or without explicit Content-Length, optionally after "
-        "1-2 earlier requests on the same persistent connection (one Requestant re-armed per message, as the server does). non-trivial = "
+        "1-2 earlier requests on the same persistent connection (one Requestant re-armed per message, as the server does), "
+        "optionally built a 2nd / 3rd time by the same Requester from what it remembers (rebuild() with only the body "
+        "arguments given again). non-trivial = "
         "non-ASCII path, or a reserved character (&=+#%?;/ or blank) or non-ASCII in a query key, or >= 10 headers; distinct "
         "= canonical hash of the spec")
 ASSUMPTIONS = ["the path argument is URL path syntax: it starts with a single '/', has no '?', '#', control characters or "
@@ -69,6 +71,13 @@ def run_case(spec):
         kw["headers"] = kw["headers"] + [("Content-Length", str(len(spec["body"])))]
     reqr = clienting.Requester(**kw)
     msg = reqr.build()
+    # differential requests: the same Requester builds the request again from what it remembers (method, path, query
+    # arguments, headers); only the body arguments, which reinit() documents as reset, are given again
+    reuse = spec.get("reuse") or 0
+    earlier = b""
+    for _ in range(reuse):
+        earlier += msg
+        msg = reqr.rebuild(**{k: kw[k] for k in ("body", "data", "fargs") if k in kw})
     head = reqr.head
     sent_body = msg[len(head):]
     # earlier requests on the same (persistent) connection: the server reuses one Requestant per connection, so
@@ -83,7 +92,8 @@ def run_case(spec):
             else:
                 pk["body"] = pv["body"]
         before += clienting.Requester(**pk).build()
-    nprev = len(spec.get("prev") or [])
+    before += earlier
+    nprev = len(spec.get("prev") or []) + reuse
     results, left, raised = httpdrive.drive_requestant([before + msg])
     if raised or len(results) != nprev + 1:
         r.fail("C14/not-parsed" + ("(after earlier requests on the connection)" if nprev else ""),
@@ -171,6 +181,8 @@ def finish(r, spec):
         r.labels.append("headers>=10")
     if spec.get("prev"):
         r.labels.append("after-earlier-requests-on-the-connection")
+    if spec.get("reuse"):
+        r.labels.append("rebuilt-by-the-same-requester")
     r.labels.append("body:" + spec["bodykind"])
     r.labels.append("method:" + ("GET" if spec["method"] == "GET" else "other"))
     return r
@@ -222,6 +234,7 @@ def spec_strategy():
         "fargs": st.lists(st.tuples(ftext.filter(bool), ftext).map(list), max_size=3, unique_by=lambda kv: kv[0]),
         "explicit_cl": st.booleans(),
         "prev": st.one_of(st.just([]), st.just([]), st.lists(prev_request(), min_size=1, max_size=2)),
+        "reuse": st.sampled_from([0, 0, 1, 2]),
     })
 
 
